@@ -539,6 +539,28 @@ pub fn run_expr(scn: &Scenario, ctx: &mut Ctx) {
         let functions_differ = !same_function(st.arg(1), other_code);
         match op {
             "X.Expression" => {
+                // the well-known functions and parameters are the documented numbers, pairwise different
+                {
+                    use bc_envelope::extension::expressions::{functions, parameters};
+                    let table: [(&Function, u64, &str); 15] = [(&functions::ADD, 1, "add"), (&functions::SUB, 2, "sub"), (&functions::MUL, 3, "mul"), (&functions::DIV, 4, "div"), (&functions::NEG, 5, "neg"), (&functions::LT, 6, "lt"), (&functions::LE, 7, "le"), (&functions::GT, 8, "gt"), (&functions::GE, 9, "ge"), (&functions::EQ, 10, "eq"), (&functions::NE, 11, "ne"), (&functions::AND, 12, "and"), (&functions::OR, 13, "or"), (&functions::XOR, 14, "xor"), (&functions::NOT, 15, "not")];
+                    let k = (st.arg(1) % 15) as usize;
+                    let (cf, id, name) = table[k];
+                    ctx.checked();
+                    let want: Envelope = Expression::new(Function::from(id)).into();
+                    let got: Envelope = Expression::new(cf.clone()).into();
+                    if digest_of(&got) != digest_of(&want) || cf.name() != name {
+                        ctx.violate("C18.shape", format!("the well-known function '{}' is not function {} on the wire", name, id));
+                    }
+                    let other = table[(k + 1 + (st.arg(2) % 14) as usize) % 15].0;
+                    if let Ok(Ok(_)) = guarded(|| Expression::try_from((got.clone(), Some(other)))) {
+                        ctx.violate("C18.malformed", format!("an expression calling '{}' was accepted where '{}' was expected", name, other.name()));
+                    }
+                    let ptable: [(&Parameter, u64); 3] = [(&parameters::BLANK, 1), (&parameters::LHS, 2), (&parameters::RHS, 3)];
+                    let (cp, pid) = ptable[(st.arg(2) % 3) as usize];
+                    if *cp != Parameter::from(pid) {
+                        ctx.violate("C18.shape", format!("a well-known parameter is not parameter {}", pid));
+                    }
+                }
                 let mut e = Expression::new(f.clone()).with_parameter(make_parameter(st.arg(2)), val.clone());
                 if st.arg(3) % 2 == 0 {
                     // a repeated parameter
@@ -755,9 +777,12 @@ pub fn run_expr(scn: &Scenario, ctx: &mut Ctx) {
             "X.Response" => {
                 let id = arid(st.arg(2));
                 let kind = st.arg(3) % 4;
+                // the documented defaults: a success without a result says 'OK', a failure without an error 'Unknown'
+                let plain_failure = kind == 2 && st.arg(4) % 3 == 0;
                 let rs = match kind {
                     0 => Response::new_success(id).with_result(val.clone()),
                     1 => Response::new_success(id), // default OK result
+                    2 if plain_failure => Response::new_failure(id),
                     2 => Response::new_failure(id).with_error(val.clone()),
                     _ => {
                         ctx.probe("early-failure");
@@ -770,6 +795,14 @@ pub fn run_expr(scn: &Scenario, ctx: &mut Ctx) {
                 let nerr = env.assertions_with_predicate(known_values::ERROR).len();
                 if (kind < 2 && (nres, nerr) != (1, 0)) || (kind >= 2 && (nres, nerr) != (0, 1)) {
                     ctx.violate("C18.shape", format!("response envelope has {} result and {} error assertions", nres, nerr));
+                }
+                if kind == 1 || plain_failure {
+                    let (pred, want) = if kind == 1 { (known_values::RESULT, known_values::OK_VALUE) } else { (known_values::ERROR, known_values::UNKNOWN_VALUE) };
+                    let got = env.object_for_predicate(pred).ok().map(|o| digest_of(&o));
+                    if got != Some(digest_of(&Envelope::new(want))) {
+                        ctx.violate("C18.shape", format!("a {} built without an explicit value does not carry the documented default", if kind == 1 { "success" } else { "failure" }));
+                    }
+                    ctx.probe("response-default-value");
                 }
                 for direct in [true, false] {
                     let rx = if direct { Some(env.clone()) } else { transmit(ctx, &env) };
